@@ -312,9 +312,12 @@ class Compiler:
         :return: The RzIL representation of it.
         """
         ast = self.parser.parse(code)
-        result = self.transformer.transform(ast)
-        self.transformer.reset()
-        return result
+        try:
+            return self.transformer.transform(ast)
+        finally:
+            # Reset after a failure as well. Otherwise the operands, immediates and flags
+            # of the failed statement leak into the next compiled statement.
+            self.transformer.reset()
 
     def compile_insn(self, insn_name: str) -> RZILInstruction:
         return self.transform_insn(insn_name, self.parsed_insns[insn_name])
